@@ -121,6 +121,11 @@ func Harness_C14_equivalence() {
 		vAssert(bytes.Equal(direct.ExtraData, rfcCertChain(ders[1:])), "and is the RFC certificate chain")
 		vReach("x509")
 	}
+	// the stored reference is resolvable from the store alone (another instance, a restart, an
+	// evicted or expired cache entry)
+	cold := newIndirectIssuanceChainService(st, &c14Cache{})
+	servedCold := &trillian.LogLeaf{LeafValue: leaf.LeafValue, ExtraData: append([]byte{}, leaf.ExtraData...)}
+	vAssert(cold.FixLogLeaf(context.Background(), servedCold) == nil && bytes.Equal(servedCold.ExtraData, direct.ExtraData), "a reader with a cold cache is served the same bytes")
 	// entries stored with their full chain continue to be served unchanged
 	old := &trillian.LogLeaf{LeafValue: direct.LeafValue, ExtraData: append([]byte{}, direct.ExtraData...)}
 	finds := st.finds
@@ -169,6 +174,14 @@ func Harness_C14_faults() {
 	err = ind.FixLogLeaf(context.Background(), served)
 	vAssert(err != nil, "storage / cache failure, unknown hash or corrupted stored chain is an error")
 	vAssert(bytes.Equal(served.ExtraData, before), "and never altered, truncated or empty chain data")
+	// a later read of the same entry (the cache may have been filled meanwhile) is still not
+	// served altered data
+	vYield() // let the detached cache fill finish
+	again := &trillian.LogLeaf{LeafValue: leaf.LeafValue, ExtraData: append([]byte{}, before...)}
+	err2 := ind.FixLogLeaf(context.Background(), again)
+	direct, derr := (&directIssuanceChainService{}).BuildLogLeaf(context.Background(), chain, "t", ml, precert)
+	vAssume(derr == nil)
+	vAssert(err2 != nil || bytes.Equal(again.ExtraData, direct.ExtraData), "a repeated read never serves anything but an error or the original chain")
 	vReach("fault")
 }
 
@@ -221,4 +234,31 @@ func Harness_C14_layouts() {
 	vAssert(ferr == nil, "a default-mode entry is served")
 	vAssert(bytes.Equal(leaf.ExtraData, ed), "unchanged")
 	vAssert(st.finds == 0 && st.adds == 0, "without consulting the chain store")
+}
+
+// Harness_C14_writeFault: a failed store write never leaves a submission whose chain reference
+// cannot be resolved: either the submission fails, or the chain is in the store.
+//
+//verif:opt maxpaths=6000 reach=retried
+func Harness_C14_writeFault() {
+	chain, _ := c14Chain()
+	vAssume(len(chain) >= 2)
+	precert := vChoice("precert", 2) == 1
+	ml := ct.CreateX509MerkleTreeLeaf(ct.ASN1Cert{Data: chain[0].Raw}, 7)
+	st, ca := &c14Store{failAdd: true}, &c14Cache{}
+	ind := newIndirectIssuanceChainService(st, ca)
+	_, err := ind.BuildLogLeaf(context.Background(), chain, "t", ml, precert)
+	vAssert(err != nil, "a failed store write fails the submission")
+	// the store recovers; the same chain is submitted again (a retry, or another certificate of the same issuer)
+	st.failAdd = false
+	leaf, err := ind.BuildLogLeaf(context.Background(), chain, "t", ml, precert)
+	if err != nil {
+		return
+	}
+	vReach("retried")
+	direct, derr := (&directIssuanceChainService{}).BuildLogLeaf(context.Background(), chain, "t", ml, precert)
+	vAssume(derr == nil)
+	cold := newIndirectIssuanceChainService(st, &c14Cache{})
+	served := &trillian.LogLeaf{LeafValue: leaf.LeafValue, ExtraData: append([]byte{}, leaf.ExtraData...)}
+	vAssert(cold.FixLogLeaf(context.Background(), served) == nil && bytes.Equal(served.ExtraData, direct.ExtraData), "an accepted submission is readable from the store alone")
 }
